@@ -63,6 +63,7 @@ func (o op) String() string {
 
 func genOps(t *rapid.T, pool []vgen.Blob, caps vcompose.Caps, n int) []op {
 	var ops []op
+	var received []int // blobs received earlier in this list: removes and reads prefer them
 	for i := 0; i < n; i++ {
 		kinds := []string{"receive", "receive", "fetch", "stat", "enumerate"}
 		if !caps.Receive {
@@ -77,12 +78,29 @@ func genOps(t *rapid.T, pool []vgen.Blob, caps vcompose.Caps, n int) []op {
 		case "receive":
 			o.Idx = []int{rapid.IntRange(0, len(pool)-1).Draw(t, "blob")}
 			o.Reader = rapid.SampledFrom(vgen.ReaderKinds).Draw(t, "reader")
+			received = append(received, o.Idx[0])
 		case "fetch":
 			o.Idx = []int{rapid.IntRange(0, len(pool)-1).Draw(t, "blob")}
+			if len(received) > 0 && rapid.Bool().Draw(t, "fetchReceived") {
+				o.Idx = []int{rapid.SampledFrom(received).Draw(t, "receivedBlob")}
+			}
 		case "stat":
 			o.Idx = rapid.SliceOfNDistinct(rapid.IntRange(0, len(pool)-1), 1, len(pool), rapid.ID[int]).Draw(t, "statIdx")
 		case "remove":
 			o.Idx = rapid.SliceOfNDistinct(rapid.IntRange(0, len(pool)-1), 1, 3, rapid.ID[int]).Draw(t, "rmIdx")
+			if len(received) > 0 && rapid.IntRange(0, 3).Draw(t, "rmReceived") != 0 {
+				// mostly remove something that is really there
+				r := rapid.SampledFrom(received).Draw(t, "receivedBlob")
+				has := false
+				for _, x := range o.Idx {
+					if x == r {
+						has = true
+					}
+				}
+				if !has {
+					o.Idx[0] = r
+				}
+			}
 		case "enumerate":
 			o.Cursor = vgen.GenCursor(t, pool)
 			o.Limit = rapid.SampledFrom([]int{1, 2, 5, 1000}).Draw(t, "limit")
@@ -191,7 +209,7 @@ func run(cd *caseDef, faults []fault, recoverAfter bool) (res result) {
 		res.inconcl = fmt.Sprintf("harness: cannot build %s: %v", cd.Tree, err)
 		return
 	}
-	defer func() { b.Close() }()
+	defer func() { b.Release() }()
 	model := vmodel.New()
 	stableKeys = map[string]bool{vgen.RefOf("sha224", []byte("never-stored")).String(): true}
 	for _, pb := range cd.Pool {
@@ -253,6 +271,13 @@ func run(cd *caseDef, faults []fault, recoverAfter bool) (res result) {
 	doOp := func(i int, o op, healthy bool) bool {
 		seq0, hit0 := env.Seq(), env.FaultsHit()
 		callsInOp = 0
+		// refs in state maybe when the op starts: a read that is itself hit by a fault must not pin them
+		maybeBefore := map[string][]byte{}
+		for _, e := range model.Entries() {
+			if e.State == vmodel.Maybe {
+				maybeBefore[e.Ref.String()] = e.Data
+			}
+		}
 		var opErr error
 		var mm error
 		werr := withWatchdog(func() error {
@@ -311,6 +336,21 @@ func run(cd *caseDef, faults []fault, recoverAfter bool) (res result) {
 		})
 		hit := env.FaultsHit() > hit0
 		lastOpErr = opErr
+		if hit && !healthy && (o.Kind == "fetch" || o.Kind == "stat" || o.Kind == "enumerate") {
+			// the observation was made through a faulted read (e.g. the replica that holds the blob failed
+			// and the next one answered not-found): it says nothing definite about a maybe blob
+			for _, e := range model.Entries() {
+				if d, ok := maybeBefore[e.Ref.String()]; ok && e.State != vmodel.Maybe {
+					model.SetMaybe(e.Ref, d)
+				}
+			}
+			var m *vmodel.Mismatch
+			if mm != nil && errors.As(mm, &m) {
+				if _, wasMaybe := maybeBefore[m.Ref]; wasMaybe {
+					mm = nil
+				}
+			}
+		}
 		trace = append(trace, fmt.Sprintf("%s -> err=%v mismatch=%v faultDelivered=%v lowerCalls=%d..%d", o, opErr, mm, hit, seq0-base+1, env.Seq()-base))
 		if te, ok := werr.(*timeoutErr); ok {
 			if !te.res.Parked {
@@ -510,13 +550,13 @@ func treeCaps(tree *vcompose.Node) vcompose.Caps {
 	if err != nil {
 		return vcompose.Caps{Receive: true}
 	}
-	defer b.Close()
+	defer b.Release()
 	return b.Caps
 }
 
 func TestSingleFaults(t *testing.T) {
 	flag.Set("rapid.steps", "10")
-	evid.Check(t, 400, 400, func(t *rapid.T) {
+	evid.Check(t, 350, 500, func(t *rapid.T) {
 		cd := genCase(t)
 		gateMu.Lock()
 		defer gateMu.Unlock()
@@ -537,11 +577,30 @@ func TestSingleFaults(t *testing.T) {
 				ks = append(ks, k)
 			}
 		} else {
-			cnt := 4
-			if n < cnt {
-				cnt = n
+			// stratified: one drawn address per kind of lower-layer operation (receive, remove, stat, get,
+			// set, commit, enumerate, fs calls ...), so that rare kinds (the removes of a shard, the index
+			// commit of a pack) are faulted as often as the frequent ones
+			groups := map[string][]int{}
+			var kinds []string
+			for i, a := range dry.addrs {
+				f := strings.Fields(a)
+				kind := f[0]
+				if len(f) > 1 {
+					kind = f[1]
+				}
+				if _, ok := groups[kind]; !ok {
+					kinds = append(kinds, kind)
+				}
+				groups[kind] = append(groups[kind], i)
 			}
-			ks = rapid.SliceOfNDistinct(rapid.IntRange(0, n-1), cnt, cnt, rapid.ID[int]).Draw(t, "k")
+			sort.Strings(kinds)
+			if len(kinds) > 6 {
+				kinds = rapid.Permutation(kinds).Draw(t, "kinds")[:6]
+			}
+			for _, kind := range kinds {
+				g := groups[kind]
+				ks = append(ks, g[rapid.IntRange(0, len(g)-1).Draw(t, "k")])
+			}
 		}
 		recoverRoot := cd.Tree.Type == "diskpacked" || cd.Tree.Type == "encrypt" || cd.Tree.Type == "blobpacked"
 		for _, k := range ks {
@@ -589,7 +648,7 @@ func behName(b vstore.Behaviour) string {
 }
 
 func TestFaultBursts(t *testing.T) {
-	evid.Check(t, 600, 3000, func(t *rapid.T) {
+	evid.Check(t, 1000, 3000, func(t *rapid.T) {
 		cd := genCase(t)
 		gateMu.Lock()
 		defer gateMu.Unlock()
